@@ -2,7 +2,7 @@
 (* quick tier: rc = 3 lattice units (rc2 = 9).  Box edges per direction chosen so that the cell
    counts 1,2,3,4 occur in every combination, with exact quotients (6 = 2 rc, 9 = 3 rc, 12 = 4 rc)
    and inexact ones mixed.  Edge 4/5 gives one cell: beyond the statement's domain (rc > L/2). *)
-EXTENDS NbGridMC
+EXTENDS NbGridMC, IOUtils
 
 LA == {5, 6, 10, 12}
 LB == {4, 7, 9, 13}
@@ -10,7 +10,13 @@ LC == {5, 8, 11, 14}
 LL == LA \X LB \X LC
 Rc2 == 9
 
-Sweep == SweepInit(LL, Rc2, LAMBDA L : {-L - 1, 2 * L + 1},
+\* sweeps along one axis: that axis takes all four edge lengths, the two passive axes run through a
+\* Latin square of their cell counts (all 64 combinations are covered by the corner family)
+Latin == {<<1, 3>>, <<2, 4>>, <<3, 2>>, <<4, 1>>}
+Pick(S, k) == CHOOSE x \in S : Cardinality({y \in S : y < x}) = k - 1       \* k-th smallest
+LLSweep == UNION {{<<Pick(LA, i), Pick(LB, p[1]), Pick(LC, p[2])>>, <<Pick(LA, p[2]), Pick(LB, i), Pick(LC, p[1])>>,
+                   <<Pick(LA, p[1]), Pick(LB, p[2]), Pick(LC, i)>>} : i \in 1..4, p \in Latin}
+Sweep == SweepInit(LLSweep, Rc2, LAMBDA L : {-L - 1, 2 * L + 1},
                     LAMBDA L : {-3, -2, -1, 1, 2, 3, L - 2, L - 1, L + 1, 2 - L, 1 - L, -L - 1},
                     {<<-1, 1>>}, {<<0, 0>>, <<1, 2>>})
 Diag == {d \in {-1, 0, 1} \X {-1, 0, 1} \X {-1, 0, 1} : Cardinality({q \in 1..3 : d[q] # 0}) >= 2}
@@ -29,8 +35,7 @@ TricD(B) == (Cube(2) \ {<<0, 0, 0>>})
                               v \in {B.a, B.b, B.c, Sub(<<0, 0, 0>>, Add(B.a, Add(B.b, B.c))), Sub(B.b, B.c)}}
 Tric == TricInit(TricBR, TricP1, TricD)
 
-MultiBR == { [B |-> MkBox(6, 0, 7, 0, 0, 8), rc2 |-> 9],       \* 2 2 2 cells
-             [B |-> MkBox(12, 0, 9, 0, 0, 7), rc2 |-> 9],      \* 4 3 2
+MultiBR == {             [B |-> MkBox(12, 0, 9, 0, 0, 7), rc2 |-> 9],      \* 4 3 2
              [B |-> MkBox(10, 0, 13, 0, 0, 11), rc2 |-> 10],   \* 3 4 3
              [B |-> MkBox(12, 6, 10, -6, 5, 13), rc2 |-> 9] }  \* triclinic
 Cluster(B) == { <<0, 0, 0>>, <<2, 0, 0>>, <<-2, -1, 1>>, <<0, 3, 0>>, <<B.a[1] - 1, 1, 1>> }
@@ -39,8 +44,15 @@ Tops == { [typ |-> <<1, 2, 2, 3>>, mol |-> <<1, 1, 1, 1>>, ias |-> << <<1, 2>>, 
           [typ |-> <<2, 1, 3, 2>>, mol |-> <<1, 1, 1, 2>>, ias |-> << <<3, 1>>, <<1, 4>> >>],
           [typ |-> <<1, 1, 1, 1>>, mol |-> <<1, 2, 3, 4>>, ias |-> <<>>],
           [typ |-> <<1, 2, 1, 2>>, mol |-> <<1, 1, 1, 1>>, ias |-> << <<1, 2, 3, 4>> >>] }
-Multi == MultiInit(MultiBR, Cluster, Tops, 3) \/ MultiInit(MultiBR, Cluster, Tops, 4)
+Cluster4(B) == { <<0, 0, 0>>, <<2, 0, 0>>, <<-2, -1, 1>>, <<B.a[1] - 1, 1, 1>> }
+MultiBR4 == { [B |-> MkBox(12, 0, 9, 0, 0, 7), rc2 |-> 9], [B |-> MkBox(12, 6, 10, -6, 5, 13), rc2 |-> 9] }
+Multi == MultiInit(MultiBR, Cluster, Tops, 3) \/ MultiInit(MultiBR4, Cluster4, {t \in Tops : t.ias # <<>> /\ Cardinality(SeqRange(t.typ)) = 3}, 4)
 Tiny == TinyInit(MultiBR, Cluster)
 
-MCInit == Sweep \/ Corners \/ Tric \/ Multi \/ Tiny
+\* the family is selected by the environment variable FAMILY (one TLC run per family)
+Family == IF "FAMILY" \in DOMAIN IOEnv THEN IOEnv.FAMILY ELSE "all"
+MCFamilies == CASE Family = "sweep" -> Sweep [] Family = "corners" -> Corners [] Family = "tric" -> Tric
+                [] Family = "multi" -> Multi [] Family = "tiny" -> Tiny
+                [] OTHER -> Sweep \/ Corners \/ Tric \/ Multi \/ Tiny
+Init == ph = 0 /\ MCFamilies
 ====
